@@ -52,10 +52,19 @@ OPS = [
 ]
 
 def sh(cmd, cwd, env, timeout):
+    # own process group, killed as a whole on timeout: a mutant that makes a test binary loop
+    # forever must not keep burning cores for the rest of the run
+    import signal
+    p = subprocess.Popen(cmd, shell=True, cwd=cwd, env=env, stdout=subprocess.PIPE, stderr=subprocess.STDOUT, text=True, start_new_session=True)
     try:
-        p = subprocess.run(cmd, shell=True, cwd=cwd, env=env, capture_output=True, text=True, timeout=timeout)
-        return p.returncode, p.stdout + p.stderr
+        out, _ = p.communicate(timeout=timeout)
+        return p.returncode, out
     except subprocess.TimeoutExpired:
+        try:
+            os.killpg(p.pid, signal.SIGKILL)
+        except ProcessLookupError:
+            pass
+        p.communicate()
         return 124, 'timeout'
 
 def body_lines(path):
